@@ -115,6 +115,13 @@ def _generate_model_code(
         source.append(
             assignment_template.format(k=f"d{variable}dt", v=sympy_inline_fn(expr))
         )
+    if len(diff_eqs) > 0:
+        # Variables no reaction touches still need a derivative
+        source.extend(
+            assignment_template.format(k=f"d{variable}dt", v="0.0")
+            for variable in variables
+            if variable not in diff_eqs
+        )
 
     # Surrogates
     if len(model._surrogates) > 0:  # noqa: SLF001
@@ -122,8 +129,7 @@ def _generate_model_code(
         _LOGGER.warning(msg)
 
     # Return
-    ret_order = [i for i in variables if i in diff_eqs]
-    ret = ", ".join(f"d{i}dt" for i in ret_order) if len(diff_eqs) > 0 else "()"
+    ret = ", ".join(f"d{i}dt" for i in variables) if len(diff_eqs) > 0 else "()"
     source.append(return_template.format(ret))
 
     if end is not None:
